@@ -1,3 +1,5 @@
+use std::cmp::Ordering;
+
 use crate::{
     decode::{DecodeBeatmap, DecodeState},
     section::{
@@ -84,6 +86,11 @@ impl From<TimingPoints> for Beatmap {
     }
 }
 
+/// Orders control points by time. `-0.0` and `0.0` are the same time.
+fn cmp_time(a: f64, b: f64) -> Ordering {
+    a.partial_cmp(&b).unwrap_or_else(|| a.total_cmp(&b))
+}
+
 /// All control points of a [`Beatmap`].
 #[derive(Clone, Debug, Default, PartialEq)]
 pub struct ControlPoints {
@@ -97,7 +104,7 @@ impl ControlPoints {
     /// Finds the [`DifficultyPoint`] that is active at the given time.
     pub fn difficulty_point_at(&self, time: f64) -> Option<&DifficultyPoint> {
         self.difficulty_points
-            .binary_search_by(|probe| probe.time.total_cmp(&time))
+            .binary_search_by(|probe| cmp_time(probe.time, time))
             .map_or_else(|i| i.checked_sub(1), Some)
             .map(|i| &self.difficulty_points[i])
     }
@@ -105,7 +112,7 @@ impl ControlPoints {
     /// Finds the [`EffectPoint`] that is active at the given time.
     pub fn effect_point_at(&self, time: f64) -> Option<&EffectPoint> {
         self.effect_points
-            .binary_search_by(|probe| probe.time.total_cmp(&time))
+            .binary_search_by(|probe| cmp_time(probe.time, time))
             .map_or_else(|i| i.checked_sub(1), Some)
             .map(|i| &self.effect_points[i])
     }
@@ -114,7 +121,7 @@ impl ControlPoints {
     pub fn sample_point_at(&self, time: f64) -> Option<&SamplePoint> {
         let i = self
             .sample_points
-            .binary_search_by(|probe| probe.time.total_cmp(&time))
+            .binary_search_by(|probe| cmp_time(probe.time, time))
             .unwrap_or_else(|i| i.saturating_sub(1));
 
         self.sample_points.get(i)
@@ -124,7 +131,7 @@ impl ControlPoints {
     pub fn timing_point_at(&self, time: f64) -> Option<&TimingPoint> {
         let i = self
             .timing_points
-            .binary_search_by(|probe| probe.time.total_cmp(&time))
+            .binary_search_by(|probe| cmp_time(probe.time, time))
             .unwrap_or_else(|i| i.saturating_sub(1));
 
         self.timing_points.get(i)
@@ -157,7 +164,7 @@ impl ControlPoint<ControlPoints> for TimingPoint {
     fn add(self, control_points: &mut ControlPoints) {
         match control_points
             .timing_points
-            .binary_search_by(|probe| probe.time.total_cmp(&self.time))
+            .binary_search_by(|probe| cmp_time(probe.time, self.time))
         {
             Err(i) => control_points.timing_points.insert(i, self),
             Ok(i) => control_points.timing_points[i] = self,
@@ -176,7 +183,7 @@ impl ControlPoint<ControlPoints> for DifficultyPoint {
     fn add(self, control_points: &mut ControlPoints) {
         match control_points
             .difficulty_points
-            .binary_search_by(|probe| probe.time.total_cmp(&self.time))
+            .binary_search_by(|probe| cmp_time(probe.time, self.time))
         {
             Err(i) => control_points.difficulty_points.insert(i, self),
             Ok(i) => control_points.difficulty_points[i] = self,
@@ -195,7 +202,7 @@ impl ControlPoint<ControlPoints> for EffectPoint {
     fn add(self, control_points: &mut ControlPoints) {
         match control_points
             .effect_points
-            .binary_search_by(|probe| probe.time.total_cmp(&self.time))
+            .binary_search_by(|probe| cmp_time(probe.time, self.time))
         {
             Err(i) => control_points.effect_points.insert(i, self),
             Ok(i) => control_points.effect_points[i] = self,
@@ -207,7 +214,7 @@ impl ControlPoint<ControlPoints> for SamplePoint {
     fn check_already_existing(&self, control_points: &ControlPoints) -> bool {
         control_points
             .sample_points
-            .binary_search_by(|probe| probe.time.total_cmp(&self.time))
+            .binary_search_by(|probe| cmp_time(probe.time, self.time))
             .map_or_else(|i| i.checked_sub(1), Some)
             .map_or(false, |i| {
                 self.is_redundant(&control_points.sample_points[i])
@@ -217,7 +224,7 @@ impl ControlPoint<ControlPoints> for SamplePoint {
     fn add(self, control_points: &mut ControlPoints) {
         match control_points
             .sample_points
-            .binary_search_by(|probe| probe.time.total_cmp(&self.time))
+            .binary_search_by(|probe| cmp_time(probe.time, self.time))
         {
             Err(i) => control_points.sample_points.insert(i, self),
             Ok(i) => control_points.sample_points[i] = self,
